@@ -66,9 +66,7 @@ ModelMatches(T, m) == BadRows(T, m) = {} /\ SumNames(T, DOMAIN T.dent) = Cardina
 (* ---------------- known findings as predicates over the request and the A-level state ---------------- *)
 \* the findings whose effects cascade into later steps of the same history (descriptor closed behind a
 \* handle; trees out of step after a request that should have succeeded)
-PtKnown(q, p, h) ==
-  (IF X.seal /\ q.op = "write" /\ p.st # "OK" THEN {"refused-write"} ELSE {})      \* a refused WRITE drops the handle's descriptor
-  \cup (IF X.ifh /\ q.op \in {"mkdir", "symlink", "create"} /\ q.uid # 0 /\ p.st = "EPERM" /\ h.st # "EPERM" THEN {"ifh-nonroot-mkdir"} ELSE {})
+PtKnown(q, p, h) == {}       \* none at present: every finding of this engine is fixed in /repo (see known_findings.json, "fixed")
 
 (* ---------------- comparison of answers ---------------- *)
 AttrEq(a, b) == a.t = b.t /\ a.perm = b.perm /\ a.uid = b.uid /\ a.gid = b.gid /\ a.size = b.size /\ a.nlink = b.nlink /\ a.rdev = b.rdev
